@@ -579,7 +579,10 @@ class Circuit:
         group will be ignored.
         """
         # Convert circuit spec and then assign to attribute
-        new_spec = compress_mode_swaps(deepcopy(self.__circuit_spec))
+        # Note: the spec is not deep copied here as this would replace any
+        # Parameter objects in the circuit, compress_mode_swaps creates copies
+        # of the components it alters.
+        new_spec = compress_mode_swaps(self.__circuit_spec)
         self.__circuit_spec = new_spec
 
     def remove_non_adjacent_bs(self) -> None:
@@ -588,8 +591,10 @@ class Circuit:
         with a mode swap and adjacent beam splitters.
         """
         # Convert circuit spec and then assign to attribute
-        spec = deepcopy(self.__circuit_spec)
-        new_spec = convert_non_adj_beamsplitters(spec)
+        # Note: the spec is not deep copied here as this would replace any
+        # Parameter objects in the circuit, the conversion creates copies of
+        # the components it alters.
+        new_spec = convert_non_adj_beamsplitters(self.__circuit_spec)
         self.__circuit_spec = new_spec
 
     def _build(self) -> CompiledCircuit:
